@@ -9,10 +9,9 @@ pub fn prop() -> Prop {
     Prop {
         id: "C13",
         level: "exploration",
-        rule: "complete enumeration over every ordered pair of built-in colour types with a From impl (90 RGB->RGB, 6 gray->gray, 30 gray->RGB, 30 RGB->gray, 13 from BinaryColor, 13 to BinaryColor = 182) x every source value: the full colour cube for sources up to 18 bits; for the two 24-bit sources every value of each channel with the other two on a 9-value grid (quick) or the full 2^24 cube (thorough). Oracle (exact integer arithmetic): per channel |out*FROM_MAX - in*TO_MAX|*2 <= FROM_MAX (nearest representable value; ties cannot occur because every MAX is odd), black->black, white->white, monotone per channel, widen-then-narrow identity, RGB<->BGR of equal depth keeps all channels, gray->RGB equal scaled channels and back identity when every channel has at least the gray's bits, gray->binary On iff luma >= ceil(MAX/2), RGB->gray monotone in each channel with extremes preserved, RGB->binary == (Gray8::from(rgb).luma() >= 128). Non-trivial: the source colour is neither black nor white.",
+        rule: "complete enumeration over every ordered pair of built-in colour types with a From impl (90 RGB->RGB, 6 gray->gray, 30 gray->RGB, 30 RGB->gray, 13 from BinaryColor, 13 to BinaryColor = 182) x every source value: the full colour cube for sources up to 18 bits; for the two 24-bit sources the full 2^24 cube as well, in both tiers. Oracle (exact integer arithmetic): per channel |out*FROM_MAX - in*TO_MAX|*2 <= FROM_MAX (nearest representable value; ties cannot occur because every MAX is odd), black->black, white->white, monotone per channel, widen-then-narrow identity, RGB<->BGR of equal depth keeps all channels, gray->RGB equal scaled channels and back identity when every channel has at least the gray's bits, gray->binary On iff luma >= ceil(MAX/2), RGB->gray monotone in each channel with extremes preserved, RGB->binary == (Gray8::from(rgb).luma() >= 128). Non-trivial: the source colour is neither black nor white.",
         assumptions: vec![
             "RGB->gray: only what the statement fixes is asserted (monotonicity, extremes, reproduction of gray inputs); the luma weights themselves are not",
-            "quick tier: 24-bit sources on a per-channel grid (complete in the thorough tier)",
         ],
         subs: vec![
             Sub::enumerate("rgb_to_rgb", rgb_to_rgb),
@@ -138,10 +137,8 @@ where
 }
 
 fn rgb_to_rgb(ex: &Ex) {
-    let full = ex.tier == Tier::Thorough;
-    if !full {
-        ex.incomplete();
-    }
+    // (the full 2^24 cube of the 24-bit sources costs a few seconds on 16 cores: both tiers are complete)
+    let full = true;
     let mut base = 0u64;
     macro_rules! from {
         ($f:ident => $($t:ident),+) => { $( pair_rgb::<$f, $t>(ex, base, full); base += 1 << 25; )+ };
@@ -292,10 +289,8 @@ where
 }
 
 fn rgb_to_gray_binary(ex: &Ex) {
-    let full = ex.tier == Tier::Thorough;
-    if !full {
-        ex.incomplete();
-    }
+    // (the full 2^24 cube of the 24-bit sources costs a few seconds on 16 cores: both tiers are complete)
+    let full = true;
     let mut base = 0u64;
     macro_rules! all { ($($f:ident),+) => { $( rgb_gray::<$f>(ex, base, full); base += 1 << 25; )+ }; }
     all!(Rgb332, Rgb444, Rgb555, Bgr555, Rgb565, Bgr565, Rgb666, Bgr666, Rgb888, Bgr888);
